@@ -168,6 +168,7 @@ type checkOutcome struct {
 	genErrors   map[string][]string
 	used        map[string]bool
 	functions   []string
+	dependencies []string
 	lemmas      []string
 	violations  []violation
 	known       []string
@@ -276,6 +277,47 @@ func runProperty(p *vc.Prog, id string, claims *PropClaim, known []KnownFinding,
 				continue
 			}
 			all_ = append(all_, o)
+		}
+	}
+	// dependency closure (one level): the proofs above use the post-conditions of the in-repo callees they call, whatever
+	// property those clauses are tagged with.  Their post-condition obligations are therefore part of this property's check
+	// as well: a change that breaks one of them is reported here, not only by the property that owns the clause.
+	{
+		inCheck := map[string]bool{}
+		for _, fn := range fns {
+			inCheck[fn.String()] = true
+		}
+		var deps []string
+		for u := range out.used {
+			if strings.HasPrefix(u, "contract:") {
+				name := strings.TrimPrefix(u, "contract:")
+				if !inCheck[name] {
+					deps = append(deps, name)
+				}
+			}
+		}
+		sort.Strings(deps)
+		for _, name := range deps {
+			fn := p.Funcs[name]
+			if fn == nil || len(fn.Blocks) == 0 {
+				continue
+			}
+			ct := p.ContractFor(fn)
+			if ct == nil || ct.Extern || ct.Trusted || ct.Inline {
+				continue
+			}
+			fv := p.VerifyFunc(fn)
+			out.dependencies = append(out.dependencies, name)
+			if len(fv.Errors) > 0 {
+				out.genErrors[fv.Fn] = fv.Errors
+			}
+			for _, o := range fv.Obls {
+				if o.Kind != "ensures" {
+					continue
+				}
+				generated[fv.Fn+"::"+clauseName(o.Name)] = true
+				all_ = append(all_, o)
+			}
 		}
 	}
 	// the fixed prelude (theory of byte strings, slices, interfaces) must be satisfiable on its own
@@ -656,6 +698,7 @@ func writeEvidence(root, id, tier string, seed int, out *checkOutcome, st *selft
 		"checker_cmd":              fmt.Sprintf("/verif/bin/govc check --tier %s %s  (VC generation over go/ssa of /repo's working tree; portfolio z3 5.1.0 / cvc5 1.0.3 / z3 4.8.12)", tier, id),
 		"trusted_base":             trusted,
 		"functions_under_contract": mapShort(out.functions),
+		"callee_postconditions_rechecked (in-repo callees whose contracts these proofs use: their post-condition obligations are part of this check)": mapShort(out.dependencies),
 		"lemmas":                   out.lemmas,
 		"by_backend":               out.byBackend,
 		"solver_time_s":            round2(out.solverTime),
